@@ -1,6 +1,6 @@
 // overlaygen writes a `go build -overlay` file that (1) maps the shim package
 // github.com/tigerwill90/fox/verifsync into the fox module as a virtual directory and (2) replaces
-// every non-test Go file of the listed fox packages that imports "sync" or "sync/atomic" by a copy
+// every non-test Go file of the listed fox packages (fox, clientip, internal/{simplelru,netutil,iterutil}) that imports "sync" or "sync/atomic" by a copy
 // whose import is the shim (import substitution only; /repo itself is never modified).
 package main
 
@@ -45,7 +45,7 @@ func main() {
 		replace[filepath.Join(*repo, "verifsync", filepath.Base(f))] = f
 	}
 	rewritten := 0
-	for _, dir := range []string{".", "clientip"} {
+	for _, dir := range []string{".", "clientip", "internal/simplelru", "internal/netutil", "internal/iterutil"} {
 		files, _ := filepath.Glob(filepath.Join(*repo, dir, "*.go"))
 		sort.Strings(files)
 		for _, f := range files {
